@@ -91,13 +91,16 @@ def m_rmsd(X, y):
     return md.rmsd(as_traj(X), as_traj(y)).astype(np.float64)
 
 
-RMSD_DELTA = 4e-6
+RMSD_DELTA = 2e-4
 
 
 def rmsd_noise(d):
-    """how far two float32 evaluations of the same RMSD may differ: the mean squared deviation is a difference of O(1)
-    terms with an absolute error of a few 1e-7 (coordinates in [0, 1) nm), so the error of its root is delta / 2d for
-    ordinary values and up to sqrt(delta) around zero (a frame against itself comes out as 0 .. 4e-4)"""
+    """how far two float32 evaluations of the same RMSD may differ (same frames, but already moved to their centroid by an
+    earlier call, or evaluated as part of another batch): the mean squared deviation is a difference of O(1) terms whose
+    leading eigenvalue mdtraj finds by Newton iteration in float32.  Measured on 3e5 frame pairs of 6-10 atoms in [0, 1) nm:
+    up to 1e-5 in the mean squared deviation, with a heavy tail (a soak found 5e-6 where 4000 samples had shown 2e-6), so
+    delta is 2e-4: the error of the root is delta / 2d for ordinary values (2e-4 at 0.5 nm) and up to sqrt(delta) around
+    zero (a frame against itself comes out as 0 .. 5e-4).  A wrong centre is off by O(0.1)."""
     d = np.asarray(d, dtype=np.float64)
     return np.sqrt(d * d + RMSD_DELTA) - d
 
